@@ -2023,6 +2023,9 @@ func decodeExtendedIpv6TunnelIngress(data *[]byte) (SFlowExtendedIpv6TunnelIngre
 	rec := SFlowExtendedIpv6TunnelIngressRecord{}
 	var fdf SFlowFlowDataFormat
 
+	if len(*data) < 64 {
+		return rec, errors.New("extended IPv6 tunnel ingress record too small")
+	}
 	*data, fdf = (*data)[4:], SFlowFlowDataFormat(binary.BigEndian.Uint32((*data)[:4]))
 	rec.EnterpriseID, rec.Format = fdf.decode()
 	*data, rec.FlowDataLength = (*data)[4:], binary.BigEndian.Uint32((*data)[:4])
